@@ -51,6 +51,10 @@ impl References {
             self.timeout = self.timeout.min(Duration::from_secs(3));
         }
     }
+    /// Drops a memoised reference (generated tasks are used once).
+    pub fn forget(&mut self, t: &PlanTask) {
+        self.map.remove(&(t.src.clone(), t.ts, t.options.clone(), t.comments, t.script));
+    }
     /// Hands over a reference computed elsewhere (the shared solo table).
     pub fn preload(&mut self, t: &PlanTask, r: SoloResult) {
         self.map.insert((t.src.clone(), t.ts, t.options.clone(), t.comments, t.script), Rc::new(r));
@@ -201,6 +205,8 @@ pub fn check(plan: &Plan, rec: &RunRecord, refs: &mut References) -> Checked {
                     ("sig", want.sig.replace(' ', "\n"), got.sig.replace(' ', "\n"))
                 } else if got.diags != want.diags && !plan.handler_shared {
                     ("diags", want.diags.join("\n"), got.diags.join("\n"))
+                } else if got.spans != want.spans {
+                    ("spans", want.spans.replace(' ', "\n"), got.spans.replace(' ', "\n"))
                 } else {
                     continue;
                 };
